@@ -221,4 +221,98 @@ theorem Refine_dso (b : Buf) (x : DDso) (hb : b.len + (dsoPrefix b.len x).length
           rw [hw1, hin3, hs]; simp only [List.append_assoc]
         · simp only [List.length_append, le_length, hpl]
 
+
+-- module list --------------------------------------------------------------------------------------------------------
+
+/-- per module (`fill_raw_module`): the CodeView record when there is an identifier (`alloc_array::<u8>` and one
+    `set_value_at` per byte — the reserve-then-fill shape of `alloc_from_array`), then the name string; the record
+    keeps both offsets -/
+def opModuleBlobs : Buf → List DModule → Option (Buf × List Bytes)
+  | b, [] => some (b, [])
+  | b, m :: r =>
+    let b1 : Option Buf := if m.ident.isEmpty then some b else (Arr.allocFromArray b (m.cv.map (fun x => [x])) 1).map (·.1)
+    match b1 with
+    | none => none
+    | some b1 =>
+      match writeString b1 m.name with
+      | .ok (b2, _) =>
+        match opModuleBlobs b2 r with
+        | some (b3, recs) => some (b3, moduleRec b.len m :: recs)
+        | none => none
+      | _ => none
+
+/-- `mappings::write`: the blobs, then the count, then `alloc_from_iter(records)` when there is at least one -/
+def opModules (b : Buf) (ms : List DModule) : Option (Buf × DirEnt) :=
+  match opModuleBlobs b ms with
+  | none => none
+  | some (b1, recs) =>
+    match Slot.allocWithVal b1 (le 4 ms.length) with
+    | none => none
+    | some (b2, hdr) =>
+      if ms.isEmpty then some (b2, ⟨ST_MODULE_LIST, hdr.location.size, hdr.location.rva⟩) else
+      match Arr.allocFromArray b2 recs 108 with
+      | none => none
+      | some (b3, arr) => some (b3, ⟨ST_MODULE_LIST, hdr.location.size + arr.location.size, hdr.location.rva⟩)
+
+theorem cv_length (m : DModule) : m.cv.length = if m.ident.isEmpty then 0 else 4 + m.ident.length := by
+  unfold DModule.cv; by_cases h : m.ident.isEmpty <;> simp [h]
+
+theorem opModuleBlobs_spec (b : Buf) (ms : List DModule) (hb : b.len + (moduleBlobs ms).length < 2 ^ 32) :
+    ∃ recs, opModuleBlobs b ms = some (⟨b.inner ++ moduleBlobs ms⟩, recs) ∧
+      recs.flatten = moduleRecs b.len ms ∧ recs.length = ms.length ∧ ∀ v ∈ recs, v.length = 108 := by
+  induction ms generalizing b with
+  | nil => exact ⟨[], by simp [opModuleBlobs, moduleBlobs], by simp [moduleRecs], rfl, by simp⟩
+  | cons m r ih =>
+    have hl : (moduleBlobs (m :: r)).length = m.cv.length + (mdStr m.name).length + (moduleBlobs r).length := by
+      simp [moduleBlobs, DModule.blob, Nat.add_assoc]
+    rw [hl, mdStr_length] at hb
+    -- the CodeView record
+    have h1 : (if m.ident.isEmpty then some b else (Arr.allocFromArray b (m.cv.map (fun x => [x])) 1).map (·.1)) =
+        some ⟨b.inner ++ m.cv⟩ := by
+      by_cases hi : m.ident.isEmpty
+      · simp [hi, DModule.cv]
+      · simp only [hi, Bool.false_eq_true, if_false]
+        obtain ⟨b', a, ha, hin, _⟩ := C16_allocFromArray b (m.cv.map (fun x => [x])) 1
+          (by intro v hv; simp only [List.mem_map] at hv; obtain ⟨y, _, rfl⟩ := hv; rfl)
+          (by simp; omega)
+        simp only [ha, Option.map_some]
+        cases b'; simp at hin; simp [hin, flatten_singletons]
+    have hlen1 : (⟨b.inner ++ m.cv⟩ : Buf).len = b.len + m.cv.length := by simp [Buf.len]
+    have hws := C16_writeString ⟨b.inner ++ m.cv⟩ m.name (by rw [hlen1]; omega)
+    have hlen2 : (⟨b.inner ++ m.cv ++ le 4 (2 * m.name.length) ++ units16LE m.name⟩ : Buf).len =
+        b.len + m.cv.length + (mdStr m.name).length := by simp [Buf.len, mdStr, Nat.add_assoc]
+    obtain ⟨recs, h2, h3, h4, h5⟩ := ih ⟨b.inner ++ m.cv ++ le 4 (2 * m.name.length) ++ units16LE m.name⟩
+      (by rw [hlen2, mdStr_length]; omega)
+    refine ⟨moduleRec b.len m :: recs, ?_, ?_, by simp [h4], ?_⟩
+    · simp only [opModuleBlobs, h1, hws, h2]
+      simp [moduleBlobs, DModule.blob, mdStr, List.append_assoc]
+    · simp only [List.flatten_cons, h3, hlen2, moduleRecs]
+      simp [DModule.blob, Nat.add_assoc]
+    · intro v hv
+      rcases List.mem_cons.mp hv with rfl | hv
+      · exact moduleRec_length _ _
+      · exact h5 v hv
+
+/-- **Refinement (module list).** -/
+theorem Refine_modules (b : Buf) (ms : List DModule) (hb : b.len + (moduleBlobs ms).length + 4 + 108 * ms.length < 2 ^ 32) :
+    opModules b ms = some (⟨b.inner ++ (moduleBlobs ms ++ (le 4 ms.length ++ moduleRecs b.len ms))⟩,
+      ⟨ST_MODULE_LIST, 4 + 108 * ms.length, b.len + (moduleBlobs ms).length⟩) := by
+  obtain ⟨recs, h1, h2, h3, h4⟩ := opModuleBlobs_spec b ms (by omega)
+  have hlen1 : (⟨b.inner ++ moduleBlobs ms⟩ : Buf).len = b.len + (moduleBlobs ms).length := by simp [Buf.len]
+  obtain ⟨b2, hdr, ha, hb2, hl2⟩ := C16_allocWithVal ⟨b.inner ++ moduleBlobs ms⟩ (le 4 ms.length) (by rw [hlen1]; simp; omega)
+  have hlen2 : b2.len = b.len + (moduleBlobs ms).length + 4 := by simp [Buf.len, hb2]; omega
+  simp only [opModules, h1, ha, hl2, hlen1]
+  by_cases he : ms.isEmpty
+  · have hnil : ms = [] := List.isEmpty_iff.mp he
+    subst hnil
+    simp only [List.isEmpty_nil, if_true]
+    congr 2
+    cases b2; simp only [Buf.mk.injEq]; simp only at hb2; rw [hb2]; simp [moduleRecs, moduleBlobs]
+  · simp only [he, Bool.false_eq_true, if_false]
+    obtain ⟨b3, arr, hb_, hb3, hl3⟩ := C16_allocFromArray b2 recs 108 h4 (by rw [hlen2, h3]; omega)
+    simp only [hb_, hl3]
+    congr 2
+    · cases b3; simp only [Buf.mk.injEq]; simp only at hb3; rw [hb3, hb2, h2]; simp [List.append_assoc]
+    · simp [h3]; omega
+
 end Mdw
